@@ -54,6 +54,7 @@ def run(tier):
         if tag == 'C18':
             reps.append(deductive.verify_function(rel2, q2, c2, hooks=XM.hooks(sites), prefix='%s::%s[update equations]' % (rel2, q2)))
     reps.append(XM.feasibility_stop_report())
+    reps.append(XM.restart_termination_report())
     return reps
 
 
